@@ -51,6 +51,83 @@ class ElfPrims:
             p2, p3 = path.copy(), path.copy()
             return [(A.OK(A.SOME(("agg", "tuple", None, (("symtab",), ("strtab",))))), path), (A.OK(A.NONE), p2),
                     (A.ERR(("parse_err",)), p3)]
+        # lazy adaptor chains over the parsed tables: filter / filter_map / map build a pipeline, `extend` / `for_each`
+        # push one generic element through it (the widened form of the equivalent `for` loop)
+        isdef = "Iterator" in (t["f"].get("def") or name)
+        if short in ("filter", "filter_map", "map") and isdef and len(args) == 2:
+            src = I._deref_all(path, args[0])
+            if src[0] in ("iter", "lazy"):
+                stages = src[2] if src[0] == "lazy" else ()
+                base = src[1] if src[0] == "lazy" else src
+                return [(("lazy", base, stages + ((short, args[1]),)), path)]
+        if short in ("extend", "for_each") and len(args) == 2:
+            it = I._deref_all(path, args[1] if short == "extend" else args[0])
+            if it[0] in ("lazy", "iter"):
+                base = it[1] if it[0] == "lazy" else it
+                stages = it[2] if it[0] == "lazy" else ()
+                inner = base
+                while inner[0] == "iter":
+                    inner = inner[1]
+                elem = SYM if inner == ("symtab",) or "sym" in repr(inner) else SEG
+                outs = []
+                p_empty = path.copy()
+                p_empty.events.append(("next", "sym" if elem == SYM else "seg", "none", len(p_empty.conds)))
+                outs.append((A.UNIT, p_empty))
+                path.events.append(("next", "sym" if elem == SYM else "seg", "some", len(path.conds)))
+                states = [(path, elem)]
+                for kind, clos in stages:
+                    nxt = []
+                    for p, v in states:
+                        if kind == "filter":
+                            tmp = ("L", ("lazy-arg", frame.fid, t["sp"], len(p.events)), 0)
+                            p.store[tmp] = v
+                            carg = ("ref", (tmp, ()), False)
+                        else:
+                            carg = v
+                        res = I._call_closure_value(p, frame, t, clos, [carg], frame.depth, kind)
+                        if res is None:
+                            return None
+                        for o in res:
+                            if o.kind != "return":
+                                outs.append(("panic", o.cls, o.msg or "adaptor closure", o.path))
+                                continue
+                            if kind == "map":
+                                nxt.append((o.path, o.value))
+                            elif kind == "filter":
+                                d = I.decide(o.path, o.value)
+                                alts = [(d, o.path)] if d is not None else None
+                                if alts is None:
+                                    p2 = o.path.copy()
+                                    I.assume_cond(o.path, o.value, 1)
+                                    I.assume_cond(p2, o.value, 0)
+                                    alts = [(1, o.path), (0, p2)]
+                                for dv, pp in alts:
+                                    if dv:
+                                        nxt.append((pp, v))
+                                    else:
+                                        outs.append((A.UNIT, pp))
+                            else:
+                                for vi, payload, p3 in I.split_result(o.path, o.value, A.OPTION):
+                                    if vi == 1:
+                                        nxt.append((p3, payload))
+                                    else:
+                                        outs.append((A.UNIT, p3))
+                    states = nxt
+                for p, v in states:
+                    if short == "extend" and args[0][0] == "ref":
+                        names = [p_[2] for p_ in args[0][1][1] if isinstance(p_, tuple) and p_[0] == "f"]
+                        kv = v[3] if v[0] == "agg" and len(v[3]) == 2 else (v, ("?",))
+                        p.events.append(("coll", "insert", tuple(names), tuple(I.norm_arg(p, a) for a in kv)))
+                        outs.append((A.UNIT, p))
+                    elif short == "for_each":
+                        res = I._call_closure_value(p, frame, t, args[1], [v], frame.depth, "for_each")
+                        if res is None:
+                            return None
+                        for o in res:
+                            outs.append((A.UNIT, o.path) if o.kind == "return" else ("panic", o.cls, o.msg or "for_each closure", o.path))
+                    else:
+                        outs.append((A.UNIT, p))
+                return outs
         if short == "into_iter" or (short == "iter" and name.startswith("elf::")):
             v = args[0]
             return [(("iter", I._deref_all(path, v)), path)]
